@@ -129,9 +129,17 @@ def run(ctx):
                     tg = n.targets[0]
                     if astx.root_name(tg) in rules.aliases_of(g.sc, [g.stubs]):
                         bad.append(rules.Effect(n, "rebind-sorted", g.stubs, txt(tg)))
+            # deterministic re-ordering of values derived from the shuffled lists (chunks handed to the builder)
+            al = rules.aliases_of(g.sc, [g.stubs])
+            for n in astx.walk_fn(fn.node):
+                if isinstance(n, ast.Call) and txt(n.func) in ("sorted", "reversed") and n.args and astx.root_name(n.args[0] if not isinstance(n.args[0], ast.Call) else (n.args[0].args[0] if n.args[0].args else n.args[0])) in al:
+                    st_ = g.par.stmt_of(n)
+                    if not (isinstance(st_, ast.Assign) and st_ in [x.node for x in bad]):
+                        bad.append(rules.Effect(n, "sorted()", g.stubs, txt(n)))
             if bad:
                 for e in bad:
-                    o3.violated(fn, e.node, f"{e.kind} on {e.path} re-orders a stub list deterministically after it was shuffled")
+                    o3.violated(fn, e.node, f"{e.kind} on {e.path} re-orders shuffled stubs deterministically: which vertex lands in which slot of a motif is then fixed by vertex order "
+                                            "(placements that differ only inside a motif become unreachable)")
             else:
                 o3.holds(fn, g.stubs_def, f"no sort/reverse effect on `{g.stubs}` or its elements")
 
